@@ -49,5 +49,10 @@ def run(chk: Check):
 
 
 def replay(chk: Check, data):
-    sc = data["replay"]["trace"]["hdr"]["scenario"]
+    hdr = data["replay"]["trace"]["hdr"]
+    if "rebind" in hdr:
+        chk.tv("Trace_Proposals.tla", P.rebind_traces(hdr["rebind"]["seed"]), tag="replay",
+               keyfn=lambda r: f"{r.trace['hdr']['kernel']}:{r.conjunct}")
+        return
+    sc = hdr["scenario"]
     chk.tv("Trace_Proposals.tla", P.run(**sc), tag="replay", keyfn=lambda r: f"{r.trace['hdr']['kernel']}:{r.conjunct}")
